@@ -5,6 +5,8 @@ import HpxVerif.Lemmas.LayerBmi
 import Mathlib.Tactic.Ring
 import Mathlib.Tactic.Linarith
 
+set_option autoImplicit false   -- an unknown identifier in a statement is an error, never a new variable
+
 /-!
 # C10 — NESTED <-> RING conversion is a bijection that realises the RING ordering
 
